@@ -3,6 +3,8 @@
 // Contracts for package cache (checked by /verif/govc; comment-only, compiled only with -tags verif).
 package cache
 
+//@ immutable Cache.Map
+//
 // ---- C14: expiring cache --------------------------------------------------------------------------
 //
 // An element is expired at `now` iff it has a deadline (non-zero) that lies strictly before now.
@@ -29,6 +31,8 @@ package cache
 //@   cs-pure mapUnchanged(c.Map.data)
 //@   atomic [live] old(present(c.Map.data, key)) && old(c.Map.data[key]) != nil && old(c.Map.data[key]) != e && !expiredAt(old(atomicLoad(c.Map.data[key].ValidUntil)), t) ==> loaded && actual == old(c.Map.data[key]) && mapUnchanged(c.Map.data)
 //@   atomic [absent] !old(present(c.Map.data, key)) ==> !loaded && actual == e && mapIsStore(c.Map.data, key, e)
+//@   atomic [touches-only-key] mapUnchanged(c.Map.data) || mapIsStore(c.Map.data, key, e)
+//@   atomic [result] actual != nil && (!loaded ==> actual == e)
 //@   atomic [expired] old(present(c.Map.data, key)) && old(c.Map.data[key]) != nil && expiredAt(old(atomicLoad(c.Map.data[key].ValidUntil)), t) ==> !loaded && actual == e && mapIsStore(c.Map.data, key, e)
 //
 // Load: an atomic read of the map followed by an expiry test; an expired entry reads as absent.
